@@ -40,10 +40,10 @@ fn %(who)s_clone_and_drop_count_handles() {
 }
 """
 cfg = {
- "oneshot": dict(CHAN="GenericOneshotChannel", CLOSED="is_fulfilled", CTOR="generic_oneshot_channel", USE="", SENDER_COUNT="", SENDER_LAST="true", RECEIVER_COUNT="", RECEIVER_LAST="true", CLONE_TESTS=""),
- "oneshot_broadcast": dict(CHAN="GenericOneshotBroadcastChannel", CLOSED="is_fulfilled", CTOR="generic_oneshot_broadcast_channel", USE="use core::sync::atomic::Ordering;", SENDER_COUNT="", SENDER_LAST="true",
+ "oneshot": dict(RECEIVE="receive()", CHAN="GenericOneshotChannel", CLOSED="is_fulfilled", CTOR="generic_oneshot_channel", USE="", SENDER_COUNT="", SENDER_LAST="true", RECEIVER_COUNT="", RECEIVER_LAST="true", CLONE_TESTS=""),
+ "oneshot_broadcast": dict(RECEIVE="receive()", CHAN="GenericOneshotBroadcastChannel", CLOSED="is_fulfilled", CTOR="generic_oneshot_broadcast_channel", USE="use core::sync::atomic::Ordering;", SENDER_COUNT="", SENDER_LAST="true",
       RECEIVER_COUNT=COUNT % ("r", "receivers"), RECEIVER_LAST="(n == 1)", CLONE_TESTS=CLONE % dict(who="receiver", ctor="generic_oneshot_broadcast_channel", var="r", field="receivers")),
- "state_broadcast": dict(CHAN="GenericStateBroadcastChannel", CLOSED="is_closed", CTOR="generic_state_broadcast_channel", USE="use core::sync::atomic::Ordering;", SENDER_COUNT=COUNT % ("s", "senders"), SENDER_LAST="(n == 1)",
+ "state_broadcast": dict(RECEIVE="receive(StateId::new())", CHAN="GenericStateBroadcastChannel", CLOSED="is_closed", CTOR="generic_state_broadcast_channel", USE="use core::sync::atomic::Ordering;", SENDER_COUNT=COUNT % ("s", "senders"), SENDER_LAST="(n == 1)",
       RECEIVER_COUNT=COUNT % ("r", "receivers"), RECEIVER_LAST="(n == 1)", CLONE_TESTS=CLONE % dict(who="receiver", ctor="generic_state_broadcast_channel", var="r", field="receivers") + CLONE % dict(who="sender", ctor="generic_state_broadcast_channel", var="s", field="senders")),
 }
 for f, c in cfg.items():
